@@ -36,6 +36,7 @@ type SessSpec struct {
 	MsgSize    int    `json:"msg_size,omitempty"` // ... and their size
 	Unpaced    int    `json:"unpaced,omitempty"`  // exact-*: the first Unpaced messages are written back to back, the rest one per PaceMs
 	PaceMs     int    `json:"pace_ms,omitempty"`
+	RoundBoundMs int  `json:"round_bound_ms,omitempty"` // echo: every read of a reply must complete within this much virtual time (loss-free schedules only)
 	ArmAfter   int    `json:"arm_after,omitempty"` // close-race: the client socket starts stalling after this many messages
 	Variant    int    `json:"variant,omitempty"`   // close-race: 1 = client Close while the output loop stalls in WriteTo of a data datagram;
 	// 2 = the server closes first, the client's input loop stalls in WriteTo of the close session response (holding the output lock),
@@ -46,7 +47,8 @@ type Schedule struct {
 	ID          string     `json:"id"`
 	Family      string     `json:"family"` // baseline scripted exhaustive random slow big
 	Seed        uint64     `json:"driver_seed"`
-	MTU         int        `json:"mtu"`
+	MTU         int        `json:"mtu"`                  // client MTU (and server MTU when ServerMTU is 0)
+	ServerMTU   int        `json:"server_mtu,omitempty"` // MTU of the server endpoint; both ends may legally differ in [1280,1500]
 	Multiplex   int        `json:"multiplex"`
 	LEMode      int        `json:"le_mode"` // 0 off, 1..4
 	LERot       int        `json:"le_rot"`
@@ -211,7 +213,18 @@ func (g *gen) base(family string) *Schedule {
 		s.LEMode = g.r.Range(1, 4)
 		s.LERot = []int{0, 1, 7, 16, 240}[g.r.Intn(5)]
 	}
+	if g.r.Intn(3) == 0 {
+		// the two ends are configured independently: any pair of legal MTUs
+		s.ServerMTU = mtus[g.r.Intn(len(mtus))]
+	}
 	return s
+}
+
+func (s *Schedule) serverMTU() int {
+	if s.ServerMTU == 0 {
+		return s.MTU
+	}
+	return s.ServerMTU
 }
 
 func (g *gen) sessions(s *Schedule, total int, multi bool) {
@@ -392,5 +405,49 @@ func (g *gen) closeRace() *Schedule {
 	x.CBytes, x.SBytes = x.FirstWrite+x.Msgs*x.MsgSize, g.r.Range(1, 16)
 	s.Sessions = []SessSpec{x}
 	s.BudgetMin = 2
+	return s
+}
+
+// the two ends use different legal MTUs; bulk data in both directions so that full-size fragments of the larger-MTU end
+// travel to the smaller-MTU end; fault-free or under sustained loss
+func (g *gen) mtuPair(cm, sm int, lossy bool) *Schedule {
+	s := g.base("mtu")
+	s.MTU, s.ServerMTU = cm, sm
+	s.LatencyMs = g.r.Range(1, 10)
+	total := expUniform(g.r, 12*1024, 48*1024)
+	shape := []string{"duplex", "duplex", "reqresp", "download", "upload"}[g.r.Intn(5)]
+	x := sess(g.r, shape, total)
+	if shape == "reqresp" {
+		x.Rounds = 2
+	}
+	s.Sessions = []SessSpec{x}
+	if lossy {
+		s.LossPct, s.DupPct, s.ReorderPct = g.r.Range(2, 15), g.r.Intn(6), g.r.Intn(15)
+		s.ExtraMs = g.r.Range(1, 4*s.LatencyMs+10)
+	}
+	return s
+}
+
+// several sessions on ONE UDP underlay: session A floods a peer whose application does not read until far more than
+// segmentTreeCapacity segments have been sent (window closes, overshoot, retransmissions), session B does small echo
+// exchanges all the time and every one of them must complete promptly; afterwards A's reader resumes and A completes too
+func (g *gen) muxStall(up bool) *Schedule {
+	s := g.base("muxstall")
+	s.LEMode, s.LERot = 0, 0
+	s.ServerMTU = 0
+	s.LatencyMs = g.r.Range(15, 30) // stale window advertisements: the flooding sender overshoots the closing window
+	s.Multiplex = 10
+	shape := "slow-up"
+	if !up {
+		shape = "slow-down"
+	}
+	a := sess(g.r, shape, g.r.Range(4700, 5200)*33)
+	a.PauseMs = 40000
+	b := SessSpec{Shape: "echo", Seed: g.r.U64(), MaxWrite: 2048, ReadStyle: 1, Rounds: g.r.Range(100, 140), PaceMs: g.r.Range(150, 250),
+		FirstWrite: g.r.Range(10, 900), RoundBoundMs: 6000, StartMs: g.r.Range(5, 60)}
+	b.CBytes = b.Rounds * g.r.Range(100, 1000)
+	b.SBytes = b.Rounds * g.r.Range(100, 1000)
+	s.Sessions = []SessSpec{a, b}
+	s.BudgetMin = 5
 	return s
 }
